@@ -413,8 +413,15 @@ impl<P: Prop> DynCheck for P {
 
 // ------------------------------------------------------------------ files
 
+/// Output root: /verif, or $VERIF_OUT for background sweeps that must not touch the
+/// committed evidence (the registered commands never set it).
+pub fn out_root() -> String {
+    std::env::var("VERIF_OUT").unwrap_or_else(|_| "/verif".to_string())
+}
+
 pub fn write_replay(property: &str, v: &Violation, env: &Env) -> String {
-    let dir = "/verif/replays/found";
+    let dir = format!("{}/replays/found", out_root());
+    let dir = dir.as_str();
     let _ = std::fs::create_dir_all(dir);
     let body = json!({
         "property": property,
@@ -470,9 +477,9 @@ pub fn write_evidence(
         "wall_s": wall_s,
         "violations": violations,
     });
-    let _ = std::fs::create_dir_all("/verif/evidence");
+    let _ = std::fs::create_dir_all(format!("{}/evidence", out_root()));
     std::fs::write(
-        format!("/verif/evidence/{}.json", property),
+        format!("{}/evidence/{}.json", out_root(), property),
         serde_json::to_string_pretty(&body).unwrap(),
     )
     .expect("write evidence");
